@@ -377,7 +377,7 @@ class C06(Engine):
 		cases: list[dict[str, Any]] = []
 		for which in (0, 1):
 			pool = pools.fixed_pool(which)
-			mods = pool['modules']
+			mods = pools.core(pool)
 			top, leaf = mods[0], mods[-1]
 			mid = mods[1]
 			dirs = source_dirs(pool)
